@@ -163,6 +163,83 @@ fn adapter_check(acc: &mut Acc, case: &Case, a: Adapter, reversed: bool, msg: &[
     }
 }
 
+/// Operation histories on ONE adapter object against a two-field model (absorbed bytes, reversed flag).
+/// ops: 0 update(1 byte), 1 update(70 bytes), 2 reverse(), 3 reset, 4 finalize-and-reset (output compared), 5 clone and continue.
+/// view: 0 = Update/FixedOutput/Reset traits, 1 = the blanket digest::Digest trait, 2 = through &mut dyn DynDigest.
+fn history<D>(d0: D, ops: &[u8], view: u64, reference: &dyn Fn(&[u8], bool) -> Vec<u8>) -> Result<(), String>
+where
+    D: Update + FixedOutput + Reset + Clone + Default + ReversibleDigest + 'static,
+{
+    let (a, b) = (vec![0x61u8], pattern(3, 70));
+    let mut d = d0;
+    let (mut buf, mut rev): (Vec<u8>, bool) = (vec![], false);
+    for (i, op) in ops.iter().enumerate() {
+        match op {
+            0 | 1 => {
+                let x = if *op == 0 { &a } else { &b };
+                buf.extend_from_slice(x);
+                match view {
+                    0 => Update::update(&mut d, x),
+                    1 => digest::Digest::update(&mut d, x),
+                    _ => {
+                        let dd: &mut dyn digest::DynDigest = &mut d;
+                        dd.update(x)
+                    }
+                }
+            }
+            2 => {
+                d = d.reverse();
+                rev = true;
+            }
+            3 => {
+                buf.clear();
+                match view {
+                    0 => Reset::reset(&mut d),
+                    1 => digest::Digest::reset(&mut d),
+                    _ => {
+                        let dd: &mut dyn digest::DynDigest = &mut d;
+                        dd.reset()
+                    }
+                }
+            }
+            4 => {
+                let out: Vec<u8> = match view {
+                    0 => d.finalize_fixed_reset().to_vec(),
+                    1 => digest::Digest::finalize_reset(&mut d).to_vec(),
+                    _ => {
+                        let dd: &mut dyn digest::DynDigest = &mut d;
+                        dd.finalize_reset().to_vec()
+                    }
+                };
+                let want = reference(&buf, rev);
+                if out != want {
+                    return Err(format!("output of step {} (finalize-and-reset) = {} but the model (absorbed {} bytes, reversed={}) gives {}", i, hx(&out), buf.len(), rev, hx(&want)));
+                }
+                buf.clear();
+            }
+            _ => {
+                let c = d.clone();
+                d = c;
+            }
+        }
+    }
+    let out: Vec<u8> = match view {
+        0 => d.finalize_fixed().to_vec(),
+        1 => digest::Digest::finalize(d).to_vec(),
+        _ => {
+            let dd: Box<dyn digest::DynDigest> = Box::new(d);
+            dd.finalize().to_vec()
+        }
+    };
+    let want = reference(&buf, rev);
+    if out != want {
+        return Err(format!("final output = {} but the model (absorbed {} bytes, reversed={}) gives {}", hx(&out), buf.len(), rev, hx(&want)));
+    }
+    Ok(())
+}
+
+const HIST_OPS: [&str; 6] = ["update(1)", "update(70)", "reverse", "reset", "finalize_reset", "clone"];
+
 pub fn spaces(tier: Tier) -> Vec<Space> {
     let mut v = vec![];
     let maxlen: u64 = if tier.is_thorough() { 4200 } else { 1100 };
@@ -254,6 +331,49 @@ pub fn spaces(tier: Tier) -> Vec<Space> {
         acc.sample(case.idx, || json!({"space": "chunkings", "adapter": a.name(), "reversed": c[1] == 1, "n": n, "cut_mask": mask}));
         adapter_check(acc, case, a, c[1] == 1, &msg, chunks, c[2], json!({"adapter": a.name(), "reversed": c[1] == 1, "mode": c[2], "msg": hx(&msg), "cut_mask": mask}));
     }));
+    // 4a. operation histories: every sequence of up to N operations over {update(1), update(70), reverse, reset,
+    // finalize-and-reset, clone} on one adapter object, through three trait views, against the (bytes, flag) model
+    {
+        let maxd: u32 = if tier.is_thorough() { 7 } else { 5 };
+        let mut offsets = vec![0u64];
+        for k in 0..=maxd {
+            offsets.push(offsets[k as usize] + 6u64.pow(k));
+        }
+        let total = *offsets.last().unwrap();
+        v.push(Space::new("adapter-histories", 3 * 3 * total, move |case, acc| {
+            let c = crate::engine::coords(case.idx, &[3, 3, total]);
+            let a = ADAPTERS[c[0] as usize];
+            let view = c[1];
+            let k = offsets.iter().rposition(|o| *o <= c[2]).unwrap();
+            let mut rem = c[2] - offsets[k];
+            let mut ops = vec![0u8; k];
+            for i in (0..k).rev() {
+                ops[i] = (rem % 6) as u8;
+                rem /= 6;
+            }
+            acc.evaluations += 1;
+            acc.transitions += k as u64 + 1;
+            acc.traces += 1;
+            acc.nontrivial_structural += 1;
+            let reference = move |m: &[u8], r: bool| a.reference(m, r);
+            let res = guard(|| match a {
+                Adapter::R => history(Sha256r::default(), &ops, view, &reference),
+                Adapter::D => history(Sha256d::default(), &ops, view, &reference),
+                Adapter::H160 => history(Hash160::default(), &ops, view, &reference),
+            });
+            let names: Vec<&str> = ops.iter().map(|o| HIST_OPS[*o as usize]).collect();
+            let viewname = ["Update/FixedOutput/Reset", "digest::Digest", "dyn DynDigest"][view as usize];
+            let input = json!({"adapter": a.name(), "view": viewname, "ops": names});
+            match res {
+                Ok(Ok(())) => acc.outcome(&[ops.contains(&2) as u8, ops.contains(&4) as u8]),
+                Ok(Err(e)) => {
+                    acc.outcome(b"diverges");
+                    acc.violate(format!("C13/adapter={}/history/kind=differs-from-model", a.name()), case.idx, case.json(input), e)
+                }
+                Err(p) => acc.violate(format!("C13/adapter={}/history/kind=panic@{}", a.name(), panic_site(&p)), case.idx, case.json(input), p),
+            }
+        }));
+    }
     // 4b. long messages: interior lengths up to 3 MB for every one-shot digest and through every adapter (one piece, and 64 KiB + rest)
     v.push(Space::new("long-messages", C13_LONG.len() as u64 * 9, |case, acc| {
         let c = crate::engine::coords(case.idx, &[C13_LONG.len() as u64, 9]);
